@@ -33,7 +33,7 @@ ASSUMPTIONS = [
 BUDGET = {"quick": dict(cases=400, seconds=300), "thorough": dict(cases=6000, seconds=540)}
 CASE_TIMEOUT = 120
 MONITORS = {"product": False, "solvers": True, "poison": True}
-MONITOR_VERDICTS = ("sylvester", "greens", "nonfinite", "fp", "write")
+MONITOR_VERDICTS = ("sylvester", "greens", "nonfinite", "fp", "write", "kpm_bounds")
 
 
 def plan(tier, seed):
